@@ -684,5 +684,5 @@ def mixed_bus_classes(first='A'):
 def wal_unserialisable():
     """a bus with a write-ahead log processes an event whose payload has no JSON form, between ordinary events."""
     handlers = [['A', 'P', 'hP', [['sleep', 'd1'], ['ret', 'p']]], ['A', 'U', 'hU', [['ret', 'u']]], ['A', 'L', 'hL', [['ret', 'l']]]]
-    main = [['root', 'A', 'P', 'P1'], ['root', 'A', 'U', 'U1'], ['root', 'A', 'L', 'L1'], ['await', 'U1'], ['idle', 'A'], ['obs_all', 'end']]
+    main = [['root', 'A', 'P', 'P1'], ['root', 'A', 'U', 'U1'], ['root', 'A', 'L', 'L1'], ['idle', 'A'], ['obs_all', 'end']]
     return dict(buses=['A'], wal=['A'], reals={'d1': ['0', '1/5']}, handlers=handlers, main=main, horizon=5)
